@@ -366,7 +366,10 @@ spif_array_list_dup(spif_array_t self)
     memcpy(tmp, self, SPIF_SIZEOF_TYPE(array));
     tmp->items = (spif_obj_t *) MALLOC(sizeof(spif_obj_t) * self->len);
     for (i = 0; i < self->len; i++) {
-        tmp->items[i] = (spif_obj_t) SPIF_OBJ_DUP(SPIF_OBJ(self->items[i]));
+        /* insert_at() beyond the end leaves NULL placeholders behind. */
+        tmp->items[i] = ((SPIF_OBJ_ISNULL(self->items[i]))
+                         ? ((spif_obj_t) NULL)
+                         : ((spif_obj_t) SPIF_OBJ_DUP(SPIF_OBJ(self->items[i]))));
     }
     return tmp;
 }
